@@ -167,6 +167,27 @@ def own_events(ctx):
                 ev.append(own_event('%s secret key after the unlock scope' % alg, raw3, TAILS[3]))
         finally:
             keylife.restore_s2k(saved)
+        # foreign protected secret keys (usage 254 / 255, all specifiers): parsed, unlocked once, written back
+        import hashlib
+        for kind in ('rsa2048', 'ed25519', 'dsa1024', 'p256'):
+            fk = build.ForeignKey(kind)
+            sm = fk.secret_mpis()
+            rest = b''.join(r for t, b, r in build.read_packets(build.transferable_key(fk, [b'Foreign Own <fo@example.org>']))[1:])
+            for usage, spec in ((254, 3), (255, 3), (255, 0), (254, 1)):
+                k_ = enc.s2k_derive(spec, 8, b'12345678' if spec else b'', 0, b'pw', 16)
+                iv = bytes(range(16))
+                tail_ = hashlib.sha1(sm).digest() if usage == 254 else struct.pack('>H', sum(sm) & 0xFFFF)
+                s2k = bytes([usage, 7, spec, 8]) + (b'12345678' if spec else b'') + (b'\x00' if spec == 3 else b'') + iv
+                body = fk.pub_body + s2k + enc.cfb(7, k_, sm + tail_, False, iv=iv)
+                lab = 'foreign %s secret key usage %d s2k %d' % (kind, usage, spec)
+                try:
+                    k = pgpy.PGPKey.from_blob(build.pkt(5, body) + rest)[0]
+                    with k.unlock('pw'):
+                        ev.append(own_event(lab + ' while unlocked', bytes(k._key.__bytearray__()), TAILS[1]))
+                    ev.append(own_event(lab + ' after the unlock scope', bytes(k._key.__bytearray__()), TAILS[2]))
+                    ev.append(own_event(lab + ' whole key after the unlock scope, first packet', build.read_packets(bytes(k))[0][2], TAILS[3]))
+                except Exception as ex:
+                    ctx.note('%s could not be exercised: %s' % (lab, repr(ex)[:80]))
     return ev
 
 
